@@ -56,6 +56,8 @@ const (
 	dmEnvJitter = "GLB_VERIF_DM_JITTER"
 	dmEnvLife   = "GLB_VERIF_DM_LIFE_MS"
 	dmEnvRole   = "GLB_VERIF_ROLE"
+	dmEnvScrub  = "GLB_VERIF_DM_SCRUB" // the handler clears the daemon package's own env vars before Done()
+	dmEnvDie    = "GLB_VERIF_DM_DIE"   // the handler exits with status 3 before reaching Done()
 )
 
 func dmEarly() {
@@ -90,6 +92,14 @@ func dmHandler() {
 	}
 	life, _ := strconv.Atoi(os.Getenv(dmEnvLife))
 	time.Sleep(time.Duration(delay) * time.Millisecond)
+	if os.Getenv(dmEnvDie) == "1" {
+		os.Exit(3) // a daemon that fails during start-up: Launch must report an error
+	}
+	if os.Getenv(dmEnvScrub) == "1" {
+		// a daemon that cleans its environment (so that helpers it starts do not become daemons)
+		os.Unsetenv("ENV_DAEMON_NAME")
+		os.Unsetenv("ENV_DAEMON_FLAG")
+	}
 	dmWriteAtomic(filepath.Join(dir, strconv.Itoa(pid)+".marker"), fmt.Sprintf("%d %d", pid, ppid))
 	res := "skipped:parent-changed"
 	if os.Getppid() == ppid { // never signal anybody but the launcher
@@ -404,6 +414,24 @@ func (d *dmRun) scenario(name string, n, delayMs int, paused, jitter bool) {
 	}
 }
 
+// failThenHealthy: a Launch whose daemon dies before Done() must return an error; a healthy Launch
+// right afterwards in the same process must not be affected by it.
+func (d *dmRun) failThenHealthy() {
+	dir := d.newDir()
+	restore := dmSetenv(map[string]string{dmEnvDir: dir, dmEnvDelay: "0", dmEnvLife: "4000", dmEnvDie: "1"})
+	r := dmLaunch(dir)
+	restore()
+	sc := dmCase{Scenario: "daemon-dies-before-done", Parallel: 1}
+	switch {
+	case r.hang:
+		d.s.Violate("launch-hangs", "Launch did not return although the daemon exited before Done()", sc)
+	case r.err == nil:
+		d.s.Violate("launch-ok-for-dead-daemon", fmt.Sprintf("Launch returned pid %d and nil although the daemon exited with status 3 before calling Done()", r.pid), sc)
+	}
+	d.s.Evaluations++
+	d.scenario("healthy-after-failed", 1, 0, false, false)
+}
+
 // callerExits: Launch is called by a separate caller process that exits afterwards.
 func (d *dmRun) callerExits(delayMs int) {
 	dir := d.newDir()
@@ -468,6 +496,14 @@ func runDaemon(cfg Cfg) {
 		d.scenario("paused", 1, rng.Intn(30), true, false)
 		if i%2 == 0 {
 			d.callerExits(rng.Intn(40))
+		}
+		if i%4 == 1 {
+			d.failThenHealthy()
+		}
+		if i%4 == 3 {
+			restore := dmSetenv(map[string]string{dmEnvScrub: "1"})
+			d.scenario("scrub-env", 1, rng.Intn(20), false, false)
+			restore()
 		}
 		if i%3 == 0 {
 			d.scenario("parallel", cfg.N(6, 16), rng.Intn(20), false, true)
